@@ -1,46 +1,20 @@
-From Cell2V Require Import Common.Tac Common.ListX C09.Model C09.Spec C09.Lemmas.
-
-Ltac fin := unf; proj; rewrite ?cnt_app, ?len_app, ?len_cons, ?len_nil in *;
-            cbn [cnt cpc_eqb tpc_eqb b2z] in *; nonneg; b2zr; try lia.
+From Cell2V Require Import Common.Tac Common.ListX C09.Model C09.Spec C09.Lemmas C09.InvC1 C09.InvC2 C09.InvC3 C09.InvC4 C09.InvC5 C09.InvC6.
 
 Lemma inv_consumer s s' : Inv s -> consumer_step s = Some s' -> Inv s'.
 Proof.
-  intros [Iu Is Ip Ir Id K1 K2 K3 W] Hs. unfold consumer_step in Hs.
-  destruct (cpc_ s) eqn:Epc.
-  - (* CIdle: C0 *)
-    destruct (Z.ltb_spec 0 (dispq s)); [|discriminate]. inv Hs.
-    constructor; unf; proj; rewrite ?Epc in *; fin.
-  - (* CR1 *)
-    inv Hs. destruct (match oracle s with [] => false | x :: _ => x end && (userN s <? MaxMsgNumToSmooth));
-      constructor; unf; proj; rewrite ?Epc in *; fin.
-  - (* CBP *)
-    destruct (paused s) eqn:Ep; inv Hs; constructor; unf; proj; rewrite ?Epc, ?Ep in *; fin.
-  - (* CR2 *)
-    destruct (sq s) as [|[[o m] lk] r] eqn:Eq; [inv Hs; constructor; unf; proj; rewrite ?Epc, ?Eq in *; fin|].
-    destruct lk; inv Hs; [|constructor; unf; proj; rewrite ?Epc, ?Eq in *; fin].
-    destruct m; constructor; unf; proj; rewrite ?Epc, ?Eq in *; fin.
-  - (* CR3 *)
-    inv Hs. destruct (suspended s) eqn:Es; constructor; unf; proj; rewrite ?Epc, ?Es in *; fin.
-  - (* CR4 *)
-    destruct (uq s) as [|[o z] r] eqn:Eq; inv Hs; constructor; unf; proj; rewrite ?Epc, ?Eq in *; fin.
-  - (* CE1 *)
-    inv Hs. constructor; unf; proj; rewrite ?Epc in *; fin.
-  - (* CE2 *)
-    inv Hs. constructor; unf; proj; rewrite ?Epc in *; fin.
-  - (* CE3 *)
-    inv Hs. constructor; unf; proj; rewrite ?Epc in *; fin.
-  - (* CE4 *)
-    inv Hs. constructor; unf; proj; rewrite ?Epc in *; fin.
-  - (* CE5 *)
-    destruct ((0 <? cs s) || (negb (suspended s) && (0 <? cu s) && negb (cp s))) eqn:Ed; inv Hs.
-    + constructor; unf; proj; rewrite ?Epc in *; fin.
-    + apply orb_false_iff in Ed. destruct Ed as [Ed1 Ed2]. apply Z.ltb_ge in Ed1.
-      destruct (suspended s) eqn:Es, (cp s) eqn:Ecp, (Z.ltb_spec 0 (cu s)); cbn in Ed2; try discriminate;
-        constructor; unf; proj; rewrite ?Epc, ?Es, ?Ecp in *; fin.
-  - (* CS1 *)
-    inv Hs. destruct (paused s) eqn:Ep; constructor; unf; proj; rewrite ?Epc, ?Ep in *; fin.
-  - (* CS2 *)
-    destruct (running s) eqn:Er; inv Hs; constructor; unf; proj; rewrite ?Epc, ?Er in *; fin.
-  - (* CS3 *)
-    inv Hs. constructor; unf; proj; rewrite ?Epc in *; fin.
+  intros I Hs. destruct (cpc_ s) eqn:Epc.
+  - eapply inv_c_CIdle; eassumption.
+  - eapply inv_c_CR1; eassumption.
+  - eapply inv_c_CBP; eassumption.
+  - eapply inv_c_CR2; eassumption.
+  - eapply inv_c_CR3; eassumption.
+  - eapply inv_c_CR4; eassumption.
+  - eapply inv_c_CE1; eassumption.
+  - eapply inv_c_CE2; eassumption.
+  - eapply inv_c_CE3; eassumption.
+  - eapply inv_c_CE4; eassumption.
+  - eapply inv_c_CE5; eassumption.
+  - eapply inv_c_CS1; eassumption.
+  - eapply inv_c_CS2; eassumption.
+  - eapply inv_c_CS3; eassumption.
 Qed.
